@@ -1158,9 +1158,14 @@ class Normalizer:
             a = fn.args
             if a.vararg or a.kwarg or a.posonlyargs:
                 continue
-            if any(isinstance(n, (ast.Yield, ast.YieldFrom, ast.Await, ast.Global, ast.Nonlocal, ast.FunctionDef, ast.Lambda, ast.ClassDef))
+            if any(isinstance(n, (ast.Yield, ast.YieldFrom, ast.Await, ast.Global, ast.Nonlocal, ast.FunctionDef, ast.ClassDef))
                    for st in fn.body for n in ast.walk(st)):
                 continue
+            # lambdas are fine unless one of their parameters has the name of a parameter / local of the helper (substitution
+            # of the helper's names would then have to look inside the lambda's scope)
+            own_names = {x.arg for x in ast.walk(fn.args) if isinstance(x, ast.arg)} | {
+                n.id for st in fn.body for n in ast.walk(st) if isinstance(n, ast.Name) and isinstance(n.ctx, ast.Store)}
+            # (checked where the helper is inlined: see _lambda_clash)
             if any(isinstance(n, ast.Name) and n.id == name for n in ast.walk(fn)) or any(
                     isinstance(n, ast.Attribute) and n.attr in (name, self._mangled(fi, name)) for st in fn.body for n in ast.walk(st)):
                 continue  # recursive
@@ -1556,6 +1561,12 @@ class Normalizer:
             return [ast.fix_missing_locations(first), ast.fix_missing_locations(new_st)]
         return None
 
+    @staticmethod
+    def _lambda_clash(stmts, mapping) -> bool:
+        """A lambda in the helper binds, as a parameter, a name the inlining would substitute."""
+        lam = {x.arg for s_ in stmts for n in ast.walk(s_) if isinstance(n, ast.Lambda) for x in ast.walk(n.args) if isinstance(x, ast.arg)}
+        return bool(lam & set(mapping))
+
     def _site_tag(self, fi, fn) -> str:
         """Suffix for the locals of one inlined copy of a helper: the helper's name, numbered from the second copy in the same
         function on (two copies must not share their temporaries)."""
@@ -1594,6 +1605,8 @@ class Normalizer:
         for l in helper_locals:
             if l not in binding and l in caller_names:
                 mapping[l] = ast.Name(id=f"{l}__{tag}", ctx=ast.Load())
+        if self._lambda_clash(hb, mapping):
+            return None
         body = [_Rename(mapping).visit(s) for s in hb]
         if mode == "return":
             out = body
@@ -1657,8 +1670,8 @@ class Normalizer:
                 continue
             reassigned = p in helper_locals
             uses = sum(len(_loads(s, p)) for s in body_nodes)
-            if self._trivial(v) and (not reassigned or (isinstance(v, ast.Name) and v.id in target_names)):
-                mapping[p] = v
+            if self._trivial(v) and (not reassigned or (isinstance(v, ast.Name) and (v.id in target_names or mode == "return"))):
+                mapping[p] = v   # (after `return helper(x)` nothing reads x again: the helper's re-bindings of its parameter may use x itself)
             elif uses <= 1 and not reassigned and not any(isinstance(n, (ast.Call,)) for n in ast.walk(v)) and not (
                     any(isinstance(n, (ast.Attribute, ast.Subscript)) for n in ast.walk(v)) and any(isinstance(n, ast.Call) for s_ in body_nodes for n in ast.walk(s_))):
                 mapping[p] = v   # (an argument reading object state is not moved past calls of the helper body)
@@ -1674,6 +1687,8 @@ class Normalizer:
                 continue
             if l in caller_names:
                 mapping[l] = ast.Name(id=f"{l}__{site_tag}", ctx=ast.Load())
+        if self._lambda_clash(body_nodes, mapping):
+            return None
         rn = _Rename(mapping)
         out = pre + [_loc_all(rn.visit(s), st) for s in stmts]
         if final is not None and final.value is not None:
